@@ -91,4 +91,10 @@ def run(ctx, R):
     from psa import sqlshape
     n = sqlshape.shape_rule(ctx, R, 'R7.6', [
         'placement.objects.allocation:_check_capacity_exceeded'])
-    R.count('R7.6', n, 1)
+    n += sqlshape.shape_rule(ctx, R, 'R7.6', [
+        'placement.objects.consumer:_delete_consumer',
+        'placement.objects.consumer:Consumer.increment_generation',
+        'placement.objects.resource_provider:ResourceProvider.increment_generation'])
+    from psa.rules import genstate
+    genstate.generation_writers(ctx, R, 'R7.7')
+    R.count('R7.6', n, 4)
